@@ -31,6 +31,17 @@ def cmpRes (model : String) (impl : List String) : Verdict :=
 def step (_ : Unit) (pre post : List String) : Unit × Verdict :=
   let v : Verdict :=
     match pre with
+    | ["const", name] =>
+      let want : Option String := match name with
+        | "precision" => some "18"
+        | "decbits" => some (toString (BigDec.maxBits - Int256.maxBitLen))
+        | "one" => some (toString BigDec.P)
+        | "smallest" => some (toString BigDec.smallest)
+        | "maxbits255" => some (toString (Int256.inRange (2 ^ 255 - 1) && !Int256.inRange (2 ^ 255)))
+        | _ => none
+      match want with
+      | some w => if BigDec.P = 10 ^ 18 then cmpRes w post else .diff "model precision"
+      | none => .bad "const"
     | ["add", a, b] =>
       match parseCoins a, parseCoins b with
       | some ca, some cb =>
